@@ -18,7 +18,7 @@ ASSUMPTIONS = ["multiprocessing.Pool.map returns results in task order (validate
                "the evaluation function is deterministic in the net state (true for runpp; the stub is a hash of the state)"]
 TRUSTED = ["in-process replacement of mp.Pool for the correspondence part; real mp.Pool for the oracle part"]
 ET = c14.ET
-_CFG = {"seed": 0, "raise_p": 0.0, "base": None}
+_CFG = {"seed": 0, "raise_p": 0.0, "base": None, "sleep": 0.0}
 
 
 def _key(net):
@@ -27,8 +27,12 @@ def _key(net):
 
 def det_stub(net, **kw):
     k = _key(net)
-    h = int(hashlib.sha1(repr((k, _CFG["seed"])).encode()).hexdigest()[:12], 16)
+    # the values depend on the net state AND on the options the evaluation receives
+    h = int(hashlib.sha1(repr((k, _CFG["seed"], sorted((a, repr(b)) for a, b in kw.items()))).encode()).hexdigest()[:12], 16)
     r = random.Random(h)
+    if _CFG["sleep"] and k != _CFG["base"] and h % 4 == 0:
+        import time
+        time.sleep(_CFG["sleep"])      # makes workers complete out of task order
     if k != _CFG["base"] and r.random() < _CFG["raise_p"]:
         raise RuntimeError("stub raise")
     for t in ("line", "trafo", "trafo3w"):
@@ -61,7 +65,22 @@ class _FakePool:
         return res
 
 
-def _mk(rng):
+def _opts(rng):
+    call = {}
+    pf0 = rng.choice([None, {"opt_a": 1}, {"opt_a": 1, "opt_b": "x"}])
+    pf1 = rng.choice([None, {"opt_a": 2}, {"opt_c": True}])
+    if pf0 is not None:
+        call["pf_options"] = pf0
+    if pf1 is not None:
+        call["pf_options_nminus1"] = pf1
+    call.update(rng.choice([{}, {}, {"opt_a": 7}, {"extra": 3}]))
+    return call
+
+
+def _mk(rng, big=False):
+    if big:
+        net = nets.rand_net(rng, nb=rng.randint(9, 12), chords=3, n_trafo=2, shuffle_index=rng.random() < 0.5, oos=0.1)
+        return net, ["line", "trafo"], {"line": {"index": list(net.line.index)}}
     net = c14._mk_stub_net(rng)
     tabs = [t for t in ("line", "trafo", "trafo3w") if len(net[t]) > 0]
     cases = {}
@@ -90,12 +109,13 @@ def _fr(x):
 def _corr_case(ctx, rng):
     import pandapower.contingency.contingency_parallel as cp
     net, tabs, cases = _mk(rng)
-    _CFG.update(seed=rng.randrange(10 ** 9), raise_p=rng.choice([0.0, 0.2, 0.4]), base=_key(net))
+    _CFG.update(seed=rng.randrange(10 ** 9), raise_p=rng.choice([0.0, 0.2, 0.4]), base=_key(net), sleep=0.0)
+    call = _opts(rng)
     _FakePool.order_rng = random.Random(rng.randrange(10 ** 9))
     orig = cp.mp.Pool
     cp.mp.Pool = _FakePool
     try:
-        res = cp.run_contingency_parallel(net, cases, contingency_evaluation_function=det_stub, n_procs=2)
+        res = cp.run_contingency_parallel(net, cases, contingency_evaluation_function=det_stub, n_procs=2, **call)
     finally:
         cp.mp.Pool = orig
     packs = _FakePool.packs
@@ -147,10 +167,10 @@ def _corr_case(ctx, rng):
     impl.append([bool(res[t]["causes_overloading"][list(net[t].index).index(i)]) for t, i in all_labels])
     # the property itself on this input: sequential run_contingency with the same deterministic evaluation
     from pandapower.contingency import run_contingency
-    seq = run_contingency(net, cases, contingency_evaluation_function=det_stub)
+    seq = run_contingency(net, cases, contingency_evaluation_function=det_stub, **call)
     cpar, cseq = _canon(res), _canon(seq)
     desc = {"net": pp.to_json(net), "cases": {t: [int(i) for i in v["index"]] for t, v in cases.items()},
-            "stub": {"seed": _CFG["seed"], "raise_p": _CFG["raise_p"]}}
+            "stub": {"seed": _CFG["seed"], "raise_p": _CFG["raise_p"]}, "call": {k: repr(v) for k, v in call.items()}}
     nsucc = sum(1 for p in packs if p["success"])
     small = {"tables": {t: [int(i) for i in net[t].index] for t in tabs}, "cases": desc["cases"], "stub": desc["stub"], "n_success": nsucc}
     ctx.case(small, nontrivial=nsucc >= 2, sample={"input": small, "parallel_result": cpar.get("line")} if ctx.evaluations < 2 else None)
@@ -164,14 +184,18 @@ def _corr_case(ctx, rng):
 def _real_pool_case(ctx, rng):
     import pandapower.contingency.contingency_parallel as cp
     from pandapower.contingency import run_contingency
-    net, tabs, cases = _mk(rng)
-    _CFG.update(seed=rng.randrange(10 ** 9), raise_p=rng.choice([0.0, 0.25]), base=_key(net))
+    big = rng.random() < 0.5
+    net, tabs, cases = _mk(rng, big=big)
+    _CFG.update(seed=rng.randrange(10 ** 9), raise_p=rng.choice([0.0, 0.25]), base=_key(net), sleep=rng.choice([0.0, 0.15]))
+    call = _opts(rng)
     js = pp.to_json(net)
-    ref = _canon(run_contingency(pp.from_json_string(js), cases, contingency_evaluation_function=det_stub))
-    desc = {"net": js, "cases": {t: [int(i) for i in v["index"]] for t, v in cases.items()}, "stub": {"seed": _CFG["seed"], "raise_p": _CFG["raise_p"]}}
+    ref = _canon(run_contingency(pp.from_json_string(js), cases, contingency_evaluation_function=det_stub, **call))
+    ctx.count("real_pool_tasks_%s" % ("9+" if big else "<9"))
+    desc = {"net": js, "cases": {t: [int(i) for i in v["index"]] for t, v in cases.items()}, "stub": {"seed": _CFG["seed"], "raise_p": _CFG["raise_p"], "sleep": _CFG["sleep"]},
+            "call": {k: repr(v) for k, v in call.items()}}
     for n_procs in (1, 2, 3):
         n2 = pp.from_json_string(js)
-        got = _canon(cp.run_contingency_parallel(n2, cases, contingency_evaluation_function=det_stub, n_procs=n_procs))
+        got = _canon(cp.run_contingency_parallel(n2, cases, contingency_evaluation_function=det_stub, n_procs=n_procs, **call))
         ctx.count("real_pool_nprocs_%d" % n_procs)
         if got != ref:
             diff = [(el, k) for el in ref for k in ref[el] if got.get(el, {}).get(k) != ref[el][k]]
@@ -210,7 +234,7 @@ def _real_runpp_case(ctx, rng):
 def run(ctx):
     rng = ctx.rng
     terms, impls, descs = [], [], []
-    for k in range(ctx.n(200, 2500)):
+    for k in range(ctx.n(120, 2500)):
         t, i, d = _corr_case(ctx, rng)
         terms.append(t)
         impls.append(i)
@@ -220,9 +244,9 @@ def run(ctx):
         ctx.corr_checked += 1
         if c14._js(i) != c14._js(m):
             ctx.disagreement("parallel aggregation differs from C15.Model.run_par on the recorded packs: impl=%s model=%s" % (c14._js(i)[:300], c14._js(m)[:300]), d)
-    for k in range(ctx.n(12, 150)):
+    for k in range(ctx.n(8, 150)):
         _real_pool_case(ctx, rng)
-    for k in range(ctx.n(6, 80)):
+    for k in range(ctx.n(4, 80)):
         _real_runpp_case(ctx, rng)
 
 
